@@ -115,7 +115,7 @@ pub fn guarded<T>(f: impl FnOnce() -> T) -> Result<T, Failure> {
         Ok(v) => Ok(v),
         Err(_) => {
             let (loc, msg) = take_last_panic().unwrap_or(("?".into(), "?".into()));
-            if loc.contains("/verif/harness/") {
+            if loc.contains("/verif/harness/") || loc.starts_with("src/") {
                 harness_error(&format!("panic inside harness code at {}: {}", loc, msg));
             }
             Err(panic_failure(&loc, &msg))
@@ -137,7 +137,7 @@ pub fn guarded_small_stack<T: Send + 'static>(
         Ok(v) => Ok(v),
         Err(_) => {
             let (loc, msg) = take_last_panic().unwrap_or(("?".into(), "?".into()));
-            if loc.contains("/verif/harness/") {
+            if loc.contains("/verif/harness/") || loc.starts_with("src/") {
                 harness_error(&format!("panic inside harness code at {}: {}", loc, msg));
             }
             Err(panic_failure(&loc, &msg))
